@@ -2039,7 +2039,11 @@ class PrepareAst:
 
                     # non default __new__ not (yet) supported
 
-                    new_call = self.subcall(obj_type.__new__, [obj_type, *args], kwargs)
+                    # binding arguments consumes the keyword dictionary,
+                    # __init__ receives the same keyword arguments as __new__
+                    new_call = self.subcall(
+                        obj_type.__new__, [obj_type, *args], dict(kwargs)
+                    )
                     new_obj = new_call.result()
 
                     if not isinstance(new_obj, obj_type):
